@@ -2782,7 +2782,9 @@ fn check_syn_handling(w: &mut World) {
                 }
                 if let Some(f) = first {
                     w.c.inc("c07_connects_dated");
-                    if e.t_ns > f + 23 * SEC + 2 * gap && stale.is_none() {
+                    // (a pending handshake is eleven timers in a row, each firing at the server's next
+                    // step: it outlives its 22 s by up to eleven step intervals)
+                    if e.t_ns > f + 23 * SEC + 13 * gap && stale.is_none() {
                         stale = Some(format!("server reported Connect for {} at t={} ms on an ACK returning the nonce of a SYN-ACK first sent at t={} ms: that handshake expired after 22 s", a, e.t_ns / MS, f / MS));
                     }
                 }
@@ -3167,7 +3169,9 @@ pub fn run_limits(seed: u64, params: &Params, out: &mut ScnOut) {
         w.drop_client(i);
     }
     w.net.drop_rules.clear();
-    let quiet_until = w.now_ns + 50 * SEC;
+    // (50 s covers the documented lifetimes — 22 s pending, 20 s linger, timeouts <= 8 s — for a
+    // server stepped every 10 ms; timers fire at the next step, a pending handshake is eleven of them)
+    let quiet_until = w.now_ns + 50 * SEC + 12 * w.server.max_step_gap_ns;
     while w.now_ns <= quiet_until && !w.panicked {
         if w.step_next().is_none() {
             break;
@@ -3176,7 +3180,7 @@ pub fn run_limits(seed: u64, params: &Params, out: &mut ScnOut) {
     let fresh = client_addr(500 + (seed % 100) as usize);
     let before = w.server.events.len();
     let ni = w.connect_client(mk(&mut rng), fresh, (10 * MS, 10 * MS), None);
-    let until = w.now_ns + 10 * SEC;
+    let until = w.now_ns + 10 * SEC + 4 * w.server.max_step_gap_ns;
     while w.now_ns <= until && !w.panicked {
         if w.step_next().is_none() {
             break;
